@@ -136,7 +136,7 @@ where
         let budget: f64 = ctx.tier.pick(700.0, 6000.0);
         let n_points = {
             let mut chain = chain_with_eps::<T, B>(target.clone(), &b.start, b.eps);
-            let (_, rec) = record_with(Script { prefix: vec![], momenta: moms.clone(), f32_scalar: f32b, inject: true, keep: None, max_leaves: 1 << 14 }, || chain.step());
+            let (_, rec) = record_with(Script { prefix: vec![], momenta: moms.clone(), f32_scalar: f32b, inject: true, keep: None, max_leaves: 1 << 14, init_momentum: None }, || chain.step());
             rec.decisions.iter().map(|d| (d.n - 1) as f64).sum::<f64>()
         };
         let mut bound = b.bound;
@@ -153,7 +153,7 @@ where
         }
         let res = explore(bound, ctx.tier.pick(4000, 30000), |prefix| {
             let mut chain = chain_with_eps::<T, B>(target.clone(), &b.start, b.eps);
-            let (r, rec) = record_with(Script { prefix: prefix.to_vec(), momenta: moms.clone(), f32_scalar: f32b, inject: true, keep: None, max_leaves: 1 << 14 }, || chain.step());
+            let (r, rec) = record_with(Script { prefix: prefix.to_vec(), momenta: moms.clone(), f32_scalar: f32b, inject: true, keep: None, max_leaves: 1 << 14, init_momentum: None }, || chain.step());
             let case = json!({"backend": name, "target": tname, "start": b.start, "eps": b.eps, "script": prefix});
             ctx.transitions(1);
             if let Err(m) = r {
@@ -166,7 +166,7 @@ where
                 let newpos: Vec<f64> = b.start.iter().enumerate().map(|(k, x)| if tname.starts_with("Gamma") || tname.starts_with("SqrtDom") { x * 1.7 + 0.3 } else { -0.8 * x + 0.35 + 0.1 * k as f64 }).collect();
                 chain.position = t1::<B>(&newpos);
                 chain.verif_set_adapt_state(Some(0), Some(T::from(b.eps).unwrap()), Some(T::from(b.eps).unwrap()), Some(T::from(0.0).unwrap()), None, Some(0));
-                let (r2, rec2) = record_with(Script { prefix: vec![], momenta: moms.clone(), f32_scalar: f32b, inject: true, keep: None, max_leaves: 1 << 14 }, || chain.step());
+                let (r2, rec2) = record_with(Script { prefix: vec![], momenta: moms.clone(), f32_scalar: f32b, inject: true, keep: None, max_leaves: 1 << 14, init_momentum: None }, || chain.step());
                 ctx.transitions(1);
                 let case2 = json!({"backend": name, "target": tname, "start": b.start, "eps": b.eps, "script": prefix, "then_relocated_to": newpos});
                 match r2 {
@@ -293,7 +293,7 @@ pub fn check_case(ctx: &Ctx, case: &Value) {
             if let Some((target, d, _)) = tg.iter().find(|t| t.2 == tname) {
                 let rt = gt_ref(target);
                 let mut chain = chain_with_eps::<$T, $B>(target.clone(), &start, eps);
-                let (r, rec) = record_with(Script { prefix: prefix.clone(), momenta: momenta(*d), f32_scalar: f32b, inject: true, keep: None, max_leaves: 1 << 14 }, || chain.step());
+                let (r, rec) = record_with(Script { prefix: prefix.clone(), momenta: momenta(*d), f32_scalar: f32b, inject: true, keep: None, max_leaves: 1 << 14, init_momentum: None }, || chain.step());
                 if let Err(m) = r {
                     ctx.violation(Violation::new("C03:panic", m, case.clone()));
                 } else {
